@@ -24,6 +24,7 @@ func runC04(c *Ctx) {
 	}
 	ruleWatch(c, p, roles, "C04")
 	ruleDiscard(c, p, roles)
+	ruleWriterInvariant(c, p, "C04.writer")
 	_ = cfg
 	c.R.Assumptions = append(c.R.Assumptions,
 		"errgroup cancels the shared context when a goroutine returns a non-nil error (x/sync contract)",
